@@ -17,7 +17,7 @@ from bctmc.tally import Tally
 PROPERTY = 'C11'
 RULE = ('connected routines: every connected labelled 4-node graph with two vertex-disjoint edges (binary + distinct '
         'weights), named bridge-rich 5-6 node graphs (path, cycle, star+edge, bow-tie, bridged triangles, tree+chord), '
-        'strongly connected 4-6 node digraphs (rings with 0-2 chords, triangles sharing a node); budgets 1-2 iterations '
+        'strongly connected 4-6 node digraphs (rings with 0-2 chords, triangles sharing a node), a few inputs with one connection of infinite weight; budgets 1-2 iterations '
         '(thorough 3); latticisers: all n! initial orders x k iterations, default D and a symmetric caller-supplied D (as float64, '
         'int64 and uint8 arrays), directed latticisers also with two asymmetric D; '
         'randomize_graph_partial_und: masks one empty cell / all-but-one empty cell / every other empty cell / two occupied cells plus empty cells / all occupied cells (distinct weights); ALL generator answers per '
@@ -73,6 +73,17 @@ def catalogue(thorough):
                     continue
                 cfgs.append({'fn': 'randmio_dir_connected', 'tag': tag + ('_w' if weighted else ''), 'W': W,
                              'params': {'iters': iters}})
+    # a connection of infinite weight (a "must keep" marker): reachability is about presence, not magnitude
+    for tag, n, edges in rw.NAMED_UND[:3] + [('path4', 4, [(0, 1), (1, 2), (2, 3)])]:
+        W = rw.und_from_edges(n, edges, True)
+        W[W == 1] = np.inf
+        if ss.is_connected(W):
+            cfgs.append({'fn': 'randmio_und_connected', 'tag': tag + '_w_inf', 'W': W, 'params': {'iters': 1}})
+    for tag, n, arcs in extra_dir[:3]:
+        W = rw.dir_from_arcs(n, arcs, True)
+        W[W == 1] = np.inf
+        if ss.strongly_connected(W):
+            cfgs.append({'fn': 'randmio_dir_connected', 'tag': tag + '_w_inf', 'W': W, 'params': {'iters': 1}})
     # latticisers
     und_l = [('path4', 4, [(0, 1), (1, 2), (2, 3)]), ('star4', 4, [(0, 1), (0, 2), (0, 3)]),
              ('und4_0123', 4, [(0, 1), (2, 3)]), ('und4_0213', 4, [(0, 2), (1, 3)]),
